@@ -443,6 +443,10 @@ func (t *gotr) call(v *ast.CallExpr) (string, string) {
 			}
 		}
 		if c, ok := f.X.(*ast.CallExpr); ok && Src(t.fset, c) == "new(big.Int)" {
+			if f.Sel.Name == "Sqrt" {
+				a := t.args(v, []string{"*big.Int"})
+				return "(← bSqrt " + strings.Join(a, " ") + ")", "*big.Int"
+			}
 			if f.Sel.Name == "Div" {
 				a := t.args(v, []string{"*big.Int", "*big.Int"})
 				return "(← bDiv " + strings.Join(a, " ") + ")", "*big.Int"
@@ -1052,6 +1056,19 @@ func (t *gotr) loop(s ast.Stmt, rest []ast.Stmt, ind string, tail string) string
 							x, xt := t.expr(c.Args[0])
 							if xt == "*big.Int" && !strings.Contains(x, "←") {
 								fuel = append(fuel, "((bBitLen "+x+") + 1)")
+								return
+							}
+						}
+					}
+				}
+				// k.Cmp(n) < 0 with k growing: fuel n - k
+				if be, ok := e.(*ast.BinaryExpr); ok && be.Op == token.LSS && Src(t.fset, be.Y) == "0" {
+					if c, ok := be.X.(*ast.CallExpr); ok && len(c.Args) == 1 {
+						if sel, ok := c.Fun.(*ast.SelectorExpr); ok && sel.Sel.Name == "Cmp" {
+							x, xt := t.expr(sel.X)
+							y, yt := t.expr(c.Args[0])
+							if xt == "*big.Int" && yt == "*big.Int" && !strings.Contains(x+y, "←") {
+								fuel = append(fuel, "("+y+" - "+x+")")
 								return
 							}
 						}
